@@ -303,6 +303,14 @@ return int_value, consumed
            "        if not existing or key.l1 > existing.l1 or (key.l1 == existing.l1 and key.l2 > existing.l2):",
            "        if not existing:",
            "later (more covering) envelope not stored -> repeat RPCs")
+    mutant("C10-root-envelope-not-stored", "C10", "_client.py",
+           "            self._seed_keys.setdefault(root_key_id, {}).setdefault(target_sd, {})[l0] = gke\n            return gke",
+           "            return gke",
+           "looked benign (recompute instead of store) - but then the L1-key-less envelope protect builds for 'now' gets stored and serves later, lower positions with a wrong key")
+    mutant("C10-store-replaces-equal", "C10", "_client.py",
+           "        if not existing or key.l1 > existing.l1 or (key.l1 == existing.l1 and key.l2 > existing.l2):",
+           "        if not existing or (key.l1, key.l2) >= (existing.l1, existing.l2):",
+           "looked benign (>= instead of >) - but protect's L1-key-less envelope at the same position then replaces the DC's full one")
     mutant("C10-cover-test-strict", "C10", "_client.py",
            "        if seed_key and (seed_key.l1 > l1 or (seed_key.l1 == l1 and seed_key.l2 >= l2)):",
            "        if seed_key and (seed_key.l1 > l1 or (seed_key.l1 == l1 and seed_key.l2 > l2)):",
